@@ -103,13 +103,14 @@ struct Scenario {
   bool unwind = false;            // the exporter is destroyed while an application exception propagates (stack unwinding)
   int first_name = 0;
   std::vector<int> preexisting;   // names that exist (complete older outputs) before the run
-  int name_kind[3] = {0, 0, 0};   // per name: 0 ordinary, 1 last path component 251..255 characters long, 2 '<name><suffix>.part' is occupied by a directory
+  int name_kind[3] = {0, 0, 0};   // per name: 0 ordinary, 1 last path component 251..255 characters long, 2 '<name><suffix>.part' is occupied by a directory,
+                                  // 3 a long '<name><suffix>.part' file is left over from an earlier run that was killed
   std::string show() const {
     std::ostringstream os;
     os << (comp == 0 ? "plain" : comp == 1 ? "gzip" : "xz") << (kind ? " fd" : " name") << " max=" << max_items << " first=n" << first_name << " pre={";
     for (int p : preexisting) os << "n" << p << " ";
     os << "}";
-    for (int n = 0; n < 3; n++) if (name_kind[n]) os << " n" << n << (name_kind[n] == 1 ? "=long-name" : "=part-blocked");
+    for (int n = 0; n < 3; n++) if (name_kind[n]) os << " n" << n << (name_kind[n] == 1 ? "=long-name" : name_kind[n] == 2 ? "=part-blocked" : "=stale-part-file");
     os << ":";
     for (auto& o : ops) { if (o.kind == 0) { os << " buf("; for (auto& r : o.recs) { os << r.name_len; if (r.asn_len >= 0) os << "+asn" << r.asn_len; os << ","; } os << ")"; } else if (o.kind == 1) os << " write_block"; else os << " rotate(n" << o.name << ",export=" << o.exp << ")"; }
     os << (final_write ? " write_block" : "") << (unwind ? " destroy-during-unwinding" : " destroy");
@@ -123,7 +124,7 @@ static Scenario gen_scenario(Chooser& c, bool allow_fd, unsigned size) {
   s.max_items = c.pick<uint64_t>({3, 1, 2, 10000});
   s.first_name = (int)c.range(0, 2);
   for (int n = 0; n < 3; n++) if (c.range(0, 3) == 0) s.preexisting.push_back(n);
-  if (!allow_fd) for (int n = 0; n < 3; n++) { uint64_t k = c.range(0, 7); s.name_kind[n] = k == 6 ? 1 : k == 7 ? 2 : 0; }
+  if (!allow_fd) for (int n = 0; n < 3; n++) { uint64_t k = c.range(0, 9); s.name_kind[n] = k == 6 ? 1 : k == 7 ? 2 : k >= 8 ? 3 : 0; }
   unsigned nops = (unsigned)c.range(1, 3 + size / 6);
   uint16_t tx = 1;
   unsigned rots = 0;
@@ -290,6 +291,7 @@ static void prepare_dir(const std::string& dir, const Scenario& s, std::map<std:
     if (d) { while (dirent* e = readdir(d)) { std::string n = e->d_name; if (n != "." && n != ".." && n != "snaps") { if (::unlink((dir + sub + "/" + n).c_str()) != 0) ::rmdir((dir + sub + "/" + n).c_str()); } } closedir(d); }
   }
   for (int n = 0; n < 3; n++) if (s.name_kind[n] == 2) ::mkdir((name_path(dir, s, n) + ".part").c_str(), 0755);
+  for (int n = 0; n < 3; n++) if (s.name_kind[n] == 3) { std::string old(96 * 1024, 'S'); for (size_t i = 0; i < old.size(); i += 61) old[i] = (char)('0' + (i / 61) % 10); write_file(name_path(dir, s, n) + ".part", old); }
   for (int n : s.preexisting) {
     std::string content = "complete older output n" + std::to_string(n) + " (left intact from before)";
     write_file(name_path(dir, s, n), content);
